@@ -97,8 +97,29 @@ class Edits:
 
 
 def find_anchor(src, a, b, anchor, what):
-    """unique whitespace-insensitive occurrence of anchor in src.text[a:b]; returns (s, e)."""
+    """whitespace-insensitive occurrence of anchor in src.text[a:b]; returns (s, e).  The anchor must be unique,
+    or carry an ordinal suffix `#n` selecting the n-th occurrence (1-based) among at least n."""
     region = src.text[a:b]
+    m_ord = re.match(r"^(.*)#(\d+)$", anchor, re.S)
+    if m_ord:
+        anchor, nth = m_ord.group(1), int(m_ord.group(2))
+        want = re.sub(r"\s+", "", anchor)
+        idxmap, flat = [], []
+        for i, ch in enumerate(region):
+            if not ch.isspace():
+                idxmap.append(i)
+                flat.append(ch)
+        flat = "".join(flat)
+        pos, hits2 = 0, []
+        while True:
+            p_ = flat.find(want, pos)
+            if p_ < 0:
+                break
+            hits2.append((idxmap[p_], idxmap[p_ + len(want) - 1] + 1))
+            pos = p_ + 1
+        if len(hits2) < nth:
+            raise ExtractError(f"{src.path}: anchor for {what} `{anchor}` occurrence #{nth} not found ({len(hits2)} occurrences) (lost anchor)")
+        return a + hits2[nth - 1][0], a + hits2[nth - 1][1]
     # build regex allowing any whitespace between tokens of the anchor
     parts = [re.escape(p) for p in anchor.split()]
     rx = re.compile(r"\s*".join(parts))
